@@ -4,6 +4,7 @@ use crate::ast::{
     PermCheck, PositionalOption, Size, Test, TimeSpec,
 };
 use crate::scheme::error::CompileError;
+use crate::scheme::escape_string;
 use crate::scheme::manager::SchemeManager;
 use crate::{Mode, SFlag};
 
@@ -107,10 +108,14 @@ fn compile_perm_check(buffer: &mut String, check: &PermCheck) {
     buffer.push_str(&code)
 }
 
+fn escape_char(c: char) -> String {
+    escape_string(&c.to_string())
+}
+
 /// Text that is printed as it is: it is spliced in a string literal which is then used as a
 /// `format` template, so both the reader's and `format`'s special characters are escaped
 fn verbatim(text: &str) -> String {
-    crate::scheme::escape_string(text).replace('~', "~~")
+    escape_string(text).replace('~', "~~")
 }
 
 fn literal(special: &FormatSpecial) -> String {
@@ -215,21 +220,23 @@ fn snippet(field: &FormatField) -> CResult<Option<String>> {
 
         FormatField::AccessFormatted(f) => match f {
             '@' => "atime".to_string(),
-            f => format!("strftime \"%{f}\" (localtime (atime))"),
+            f => format!("strftime \"%{}\" (localtime (atime))", escape_char(*f)),
         }
         .to_string(),
 
         FormatField::ChangeFormatted(f) => match f {
             '@' => "ctime".to_string(),
-            f => format!("strftime \"%{f}\" (localtime (ctime))"),
+            f => format!("strftime \"%{}\" (localtime (ctime))", escape_char(*f)),
         },
 
         FormatField::ModifyFormatted(f) => match f {
             '@' => "mtime".to_string(),
-            f => format!("strftime \"%{f}\" (localtime (mtime))"),
+            f => format!("strftime \"%{}\" (localtime (mtime))", escape_char(*f)),
         },
 
-        FormatField::XAttr(attr) => format!("or (xattr-ref-string \"{attr}\") \"\"").to_owned(),
+        FormatField::XAttr(attr) => {
+            format!("or (xattr-ref-string \"{}\") \"\"", escape_string(attr)).to_owned()
+        }
 
         FormatField::Depth
         | FormatField::DeviceNumber
@@ -305,7 +312,7 @@ impl TargetScheme for Test {
             Test::Name(s) => buffer.push_str(&format!("(call-with-name {})", ctx.get_matcher(s, false))),
             Test::Path(s) => buffer.push_str(&format!("(call-with-relative-path {})", ctx.get_matcher(s, false))),
             Test::Perm(check) => compile_perm_check(buffer, check),
-            Test::Pool(pool_name) => buffer.push_str(&format!("(member \"{pool_name}\" (lov-pools))")),
+            Test::Pool(pool_name) => buffer.push_str(&format!("(member \"{}\" (lov-pools))", escape_string(pool_name))),
             Test::Readable => buffer.push_str("(readable)"),
             Test::Size(cmp) => compile_size_comp(buffer, &cmp),
             Test::StripeCount(cmp) => buffer.push_str(&format_cmp!(cmp, "lov-stripe-count")),
@@ -313,10 +320,12 @@ impl TargetScheme for Test {
             Test::Type(list) => compile_type_list_comp(buffer, list),
             Test::UserId(cmp) => buffer.push_str(&format_cmp!(cmp, "uid")),
             Test::Writable => buffer.push_str("(writable)"),
-            Test::Xattr(field) => buffer.push_str(&format!("(xattr? \"{field}\")")),
+            Test::Xattr(field) => buffer.push_str(&format!("(xattr? \"{}\")", escape_string(field))),
             Test::XattrMatch(field, value) => {
                 let offending = |c:char| {"*?['".contains(c)};
-                if !(field.contains(offending) || value.contains(offending)) {
+                let pattern = field.contains(offending) || value.contains(offending);
+                let (field, value) = (escape_string(field), escape_string(value));
+                if !pattern {
                     buffer.push_str(&format!("(equal? (xattr-ref-string \"{field}\") \"{value}\")"));
                 } else {
                     buffer.push_str(&format!("(xattr-match? \"{field}\" \"{value}\")"));
